@@ -24,9 +24,9 @@ CATALOGUE = [
     ('C01-a', 'C01', W,
      "        if len(self.processes) < self.numprocesses and not self.is_stopping():\n            if self.respawn:",
      "        if len(self.processes) < self.numprocesses - 1 and not self.is_stopping():\n            if self.respawn:"),
-    ('C01-b', 'C01', W,
-     "                                  key=lambda process: process.started,\n                                  reverse=True)[self.numprocesses:]:",
-     "                                  key=lambda process: process.started,\n                                  reverse=False)[self.numprocesses:]:"),
+    # (C01-b - surplus kill takes the newest instead of the oldest - became an
+    # equivalent mutant when the repair e50fb28 made the graceful reload kill
+    # the old processes it finds afterwards; it was dropped)
     ('C01-c', 'C01', W,
      "        if np < 0:\n            np = 0\n        if self.singleton and np > 1:",
      "        if self.singleton and np > 1:"),
